@@ -6,6 +6,7 @@ mod e2;
 mod lockeng;
 mod orc;
 mod ri;
+mod tbl;
 mod util;
 mod wal;
 
@@ -22,6 +23,7 @@ fn main() {
     let mut wal_engine: Option<wal::WalEngine> = None;
     let mut e2_engine: Option<e2::E2> = None;
     let mut lk_engine: Option<lockeng::Lk> = None;
+    let mut tbl_engine: Option<tbl::TblEngine> = None;
     let mut bpt_engine: Option<bpt::Bpt> = None;
     let mut orc_engine: Option<orc::OrcEngine> = None;
     let mut cs_engine: Option<orc::CsEngine> = None;
@@ -36,6 +38,7 @@ fn main() {
         let res = std::panic::catch_unwind(std::panic::AssertUnwindSafe(|| match toks[0] {
             "wal" => wal_engine.get_or_insert_with(wal::WalEngine::new).cmd(&toks[1..]),
             "ck" => ck::cmd(&toks[1..]),
+            "tbl" => tbl_engine.get_or_insert_with(tbl::TblEngine::new).cmd(&toks[1..]),
             "bpt" => bpt_engine.get_or_insert_with(bpt::Bpt::new).cmd(&toks[1..]),
             "orc" => orc_engine.get_or_insert_with(orc::OrcEngine::new).cmd(&toks[1..]),
             "cs" => {
